@@ -33,4 +33,11 @@ ShapeDup == <<
   [name |-> "aa.v1", files |-> << [name |-> "a", decls |-> <<"Thing">>, refs |-> << >>],
                                   [name |-> "c", decls |-> <<"Thing">>, refs |-> << >>] >>],
   [name |-> "ab.v1", files |-> << [name |-> "a", decls |-> <<"User">>, refs |-> << <<"aa.v1", "Thing">> >>] >>] >>
+\* a package whose directory lies inside another package's directory (na/v1/sub/v1 under na/v1): which package a file
+\* belongs to must not depend on the order in which the packages are listed
+ShapeNested == <<
+  [name |-> "na.v1", files |-> << [name |-> "a", decls |-> <<"Thing">>, refs |-> << >>],
+                                  [name |-> "b", decls |-> <<"Other">>, refs |-> << <<"na.v1", "Thing">> >>] >>],
+  [name |-> "na.v1.sub.v1", files |-> << [name |-> "a", decls |-> <<"Thing">>, refs |-> << <<"na.v1", "Thing">> >>],
+                                         [name |-> "b", decls |-> <<"Leaf">>, refs |-> << <<"na.v1.sub.v1", "Thing">> >>] >>] >>
 =============================================================================
